@@ -96,10 +96,15 @@ def make(rng, sid):
         s.add(*c)
     s.meta["setter_calls"] = len(cmds)
     s.add("LOGOPEN", 1)
-    gen_tree.emit_read(s, p, 0, entry=entry)
+    # a third of the reads go through the ...WithCallback entry points with a callback that accepts every file: the
+    # restrictions gate the files all the same
+    cb = "cb:all" if rng.random() < 0.33 else None
+    if cb:
+        s.meta["with_callback"] = True
+    gen_tree.emit_read(s, p, 0, entry=entry, cb=cb)
     s.add("RAW", 0)
     s.add("G", "reset")
-    gen_tree.emit_read(s, p, 10, entry=entry)
+    gen_tree.emit_read(s, p, 10, entry=entry, cb=cb)
     s.add("RAW", 10)
     return s
 
@@ -289,4 +294,6 @@ def histogram(s, lines):
     res = [l for l in lines if l.startswith(("rf ", "rc ", "rd ", "rh "))]
     if res:
         ks.append("first_" + res[0].split()[1])
+    if m.get("with_callback"):
+        ks.append("through_WithCallback_entry_point")
     return ks
